@@ -61,6 +61,9 @@ Stmts(tr, id) ==
               [] tr.w = "for" -> IF tr.t.k = "L" /\ tr.t.x = "b" /\ id % 3 = 0
                                  THEN <<[k |-> "for", init |-> Decl(i, Lit(0)), c |-> None,                        \* for (int i = 0; ; ++i) break;
                                          inc |-> [k |-> "inc", op |-> "+", pre |-> TRUE, n |-> i], b |-> bare]>>
+                                 ELSE IF id % 3 = 1
+                                 THEN <<[k |-> "for", init |-> Decl(i, Lit(0)), c |-> Less2(i), inc |-> None,             \* for (int i = 0; i < 2; ) { i++; ... }
+                                         b |-> Block(<<IncS(i)>> \o inner)]>>
                                  ELSE <<[k |-> "for", init |-> Decl(i, Lit(0)), c |-> Less2(i),
                                          inc |-> [k |-> "inc", op |-> "+", pre |-> TRUE, n |-> i], b |-> bare]>>
               [] tr.w = "while" -> IF tr.t.k = "L" /\ tr.t.x = "b" /\ id % 2 = 1
